@@ -1,0 +1,102 @@
+// Verification hooks for ractor_cluster. Compiled only with `--cfg ractor_verif`.
+// Re-exports of crate-private wire types and thin wrappers around crate-private functions so
+// that a conformance harness can drive them directly.
+
+#![allow(missing_docs, missing_debug_implementations, unreachable_pub, dead_code)]
+
+/// sha256(challenge || cookie), as the handshake computes it
+pub fn challenge_digest(secret: &str, challenge: u32) -> Vec<u8> {
+    crate::hash::challenge_digest(secret, challenge).to_vec()
+}
+pub mod auth_proto {
+    pub use crate::protocol::auth::*;
+}
+pub mod control_proto {
+    pub use crate::protocol::control::*;
+}
+pub mod meta_proto {
+    pub use crate::protocol::meta::*;
+}
+pub mod node_proto {
+    pub use crate::protocol::node::*;
+}
+pub use crate::protocol::meta::NetworkMessage;
+
+pub use crate::net::verif_encode_frame as encode_frame;
+pub use crate::net::verif_read_frame as read_frame;
+pub use crate::net::VerifFrameReader as FrameReader;
+pub use crate::node::verif_elect as elect;
+
+use crate::node::auth::ClientAuthenticationProcess;
+use crate::node::auth::ServerAuthenticationProcess;
+
+/// The server-side authentication state machine, steppable from outside
+pub struct ServerFsm(pub(crate) ServerAuthenticationProcess);
+
+impl ServerFsm {
+    pub fn init() -> Self {
+        Self(ServerAuthenticationProcess::init())
+    }
+    /// the state a session is put in after it sent the `Alive` status
+    pub fn waiting_on_client_status() -> Self {
+        Self(ServerAuthenticationProcess::WaitingOnClientStatus)
+    }
+    pub fn next(&self, msg: auth_proto::AuthenticationMessage, cookie: &str) -> Self {
+        Self(self.0.next(msg, cookie))
+    }
+    pub fn start_challenge(&self, cookie: &str) -> Self {
+        Self(self.0.start_challenge(cookie))
+    }
+    pub fn kind(&self) -> &'static str {
+        match &self.0 {
+            ServerAuthenticationProcess::WaitingOnPeerName => "WaitingOnPeerName",
+            ServerAuthenticationProcess::HavePeerName(_) => "HavePeerName",
+            ServerAuthenticationProcess::WaitingOnClientStatus => "WaitingOnClientStatus",
+            ServerAuthenticationProcess::WaitingOnClientChallengeReply(_, _) => "WaitingOnClientChallengeReply",
+            ServerAuthenticationProcess::Ok(_) => "Ok",
+            ServerAuthenticationProcess::Close => "Close",
+        }
+    }
+    /// (challenge sent to the client, digest expected back) while waiting for the reply
+    pub fn pending_challenge(&self) -> Option<(u32, Vec<u8>)> {
+        match &self.0 {
+            ServerAuthenticationProcess::WaitingOnClientChallengeReply(c, d) => Some((*c, d.to_vec())),
+            _ => None,
+        }
+    }
+    /// digest acknowledged to the client once Ok
+    pub fn ack_digest(&self) -> Option<Vec<u8>> {
+        match &self.0 {
+            ServerAuthenticationProcess::Ok(d) => Some(d.to_vec()),
+            _ => None,
+        }
+    }
+}
+
+/// The client-side authentication state machine, steppable from outside
+pub struct ClientFsm(pub(crate) ClientAuthenticationProcess);
+
+impl ClientFsm {
+    pub fn init() -> Self {
+        Self(ClientAuthenticationProcess::init())
+    }
+    pub fn next(&self, msg: auth_proto::AuthenticationMessage, cookie: &str) -> Self {
+        Self(self.0.next(msg, cookie))
+    }
+    pub fn kind(&self) -> &'static str {
+        match &self.0 {
+            ClientAuthenticationProcess::WaitingForServerStatus => "WaitingForServerStatus",
+            ClientAuthenticationProcess::WaitingForServerChallenge(_) => "WaitingForServerChallenge",
+            ClientAuthenticationProcess::WaitingForServerChallengeAck(_, _, _, _) => "WaitingForServerChallengeAck",
+            ClientAuthenticationProcess::Ok => "Ok",
+            ClientAuthenticationProcess::Close => "Close",
+        }
+    }
+    /// (digest to send to the server, our challenge, digest expected in the ack)
+    pub fn pending_ack(&self) -> Option<(Vec<u8>, u32, Vec<u8>)> {
+        match &self.0 {
+            ClientAuthenticationProcess::WaitingForServerChallengeAck(_, reply, c, exp) => Some((reply.to_vec(), *c, exp.to_vec())),
+            _ => None,
+        }
+    }
+}
